@@ -193,10 +193,18 @@ func TestVerifC15(t *testing.T) {
 			cl.take()
 			ids := []uint16{10, 11, 12}
 			gap := []time.Duration{0, time.Second}[c.Choose(2, "gap")]
+			// the client either reads its PUBACKs as they come or only after it has sent all three publishes
+			late := c.Choose(2, "client-reads-after-the-burst") == 1
+			if late {
+				cl.stopReading()
+			}
 			for _, id := range ids {
 				cl.publish("up", 1, id)
 				time.Sleep(gap)
 				synctest.Wait()
+			}
+			if late {
+				cl.resumeReading()
 			}
 			acks := map[uint16]int{}
 			for _, r := range cl.take() {
